@@ -160,6 +160,7 @@ package dialer
 //@   modifies a.minLatency
 //@   ensures a.minLatency.dialer != nil ==> isAliveIn(a, a.minLatency.dialer)
 //@   ensures a.minLatency.dialer == nil ==> nEnt(a) == 0
+//@   ensures a.minLatency.dialer == nil ==> a.minLatency.sortingLatency == 3600000000000
 //@   ensures -1800000000000 <= a.minLatency.sortingLatency && a.minLatency.sortingLatency <= 3600000000000
 //@   ensures a.minLatency.dialer != nil ==> (forall i int {entL(a, i)} :: 0 <= i && i < nEnt(a) ==> !beatenByTol(entL(a, i), a.minLatency.sortingLatency, a.tolerance))
 //@   ensures old(a.minLatency.dialer) != nil && a.minLatency.dialer != old(a.minLatency.dialer) ==> \
@@ -170,9 +171,18 @@ package dialer
 //@     invariant minDialer == nil ==> minLatency == 3600000000000
 //@     invariant forall k int {entL(a, k)} :: 0 <= k && k < $idx ==> minLatency <= entL(a, k)
 
+// which statistic a policy ranks by: min -> last sample, min_avg10 -> average of the last ten,
+// min_moving_avg -> the moving average (the range of the result is assumed, not proved)
 //@ func (*Dialer).snapshotLatencyForPolicy
-//@   trusted
-//@   ensures 0 <= result0 && result0 < 1800000000000
+//@   anchorsonly
+//@   dyncalls noeffect
+//@   modifies *
+//@   assumed-ensures 0 <= result0 && result0 < 1800000000000
+//@   at call LastLatency#1 assert policy == consts.DialerSelectionPolicy_MinLastLatency
+//@   at call AvgLatency#1 assert policy == consts.DialerSelectionPolicy_MinAverage10Latencies
+//@   ensures policy == consts.DialerSelectionPolicy_MinLastLatency ==> calls("LastLatency") == 1 && calls("AvgLatency") == 0
+//@   ensures policy == consts.DialerSelectionPolicy_MinAverage10Latencies ==> calls("AvgLatency") == 1 && calls("LastLatency") == 0
+//@   ensures policy != consts.DialerSelectionPolicy_MinLastLatency && policy != consts.DialerSelectionPolicy_MinAverage10Latencies ==> calls("AvgLatency") == 0 && calls("LastLatency") == 0
 //@ func (*NetworkType).String
 //@   pure
 //@   trusted
@@ -254,3 +264,36 @@ package dialer
 //@   ensures old(reloadProxyFailureSuppression.Load()) > 1 ==> reloadProxyFailureSuppressUntil.Load() == old(reloadProxyFailureSuppressUntil.Load())
 //@   loop 1
 //@     invariant reloadProxyFailureSuppression.Load() == old(reloadProxyFailureSuppression.Load()) && reloadProxyFailureSuppressUntil.Load() == old(reloadProxyFailureSuppressUntil.Load())
+
+// Entry points of the traffic-path reports. A success clears the consecutive-failure count of its domain
+// whatever the node's state is, and revives the node only on the data-UDP domain while it is down; each
+// failure entry point feeds the threshold logic with its documented (force, traffic) flags exactly once.
+//@ func (*Dialer).ReportAvailableTraffic
+//@   nonilcheck
+//@   dyncalls noeffect
+//@   modifies *
+//@   let i() = old(typ.Index())
+//@   requires forall a int, b int :: 0 <= a && a < b && b < 8 ==> d.collections[a] != d.collections[b]
+//@   at call markAvailableTraffic#1 assert a1 == typ && typ.L4Proto == consts.L4ProtoStr_UDP && typ.EffectiveUdpHealthDomain() == UdpHealthDomainData && !d.MustGetAlive(typ) && tfc(d, i()) == 0
+//@   at call MustGetAlive#1 assert tfc(d, i()) == 0
+//@   ensures calls("markAvailableTraffic") <= 1
+//@   ensures calls("markAvailableTraffic") == 0 ==> tfc(d, i()) == 0
+
+//@ func (*Dialer).ReportUnavailable
+//@   anchorsonly
+//@   dyncalls noeffect
+//@   modifies *
+//@   at call markUnavailableInternal#1 assert a1 == typ && !a2 && a3
+//@   ensures calls("markUnavailableInternal") <= 1 && calls("markUnavailableInternal") == calls("informDialerGroupUpdate")
+//@ func (*Dialer).ReportUnavailableTransactional
+//@   anchorsonly
+//@   dyncalls noeffect
+//@   modifies *
+//@   at call markUnavailableInternal#1 assert a1 == typ && !a2 && !a3
+//@   ensures calls("markUnavailableInternal") <= 1 && calls("markUnavailableInternal") == calls("informDialerGroupUpdate")
+//@ func (*Dialer).ReportUnavailableForced
+//@   anchorsonly
+//@   dyncalls noeffect
+//@   modifies *
+//@   at call markUnavailableInternal#1 assert a1 == typ && a2 && a3
+//@   ensures calls("markUnavailableInternal") == 1 && calls("informDialerGroupUpdate") == 1
